@@ -93,6 +93,10 @@ class Monitor:
             ln = frame.f_lineno
             if not self.stack or self.stack[-1][0] != id(frame.f_code):
                 self._bad("line-event-outside-its-function-activation", func=name, line=ln)
+            elif sp and isinstance(sp[0], (list, tuple)):
+                # several functions share this name (methods of different classes): the line must lie in one of their spans
+                if not any(a <= ln <= b for a, b in sp):
+                    self._bad("line-event-names-a-line-outside-the-function", func=name, line=ln, span=[list(x) for x in sp])
             elif sp and not (sp[0] <= ln <= sp[1]):
                 self._bad("line-event-names-a-line-outside-the-function", func=name, line=ln, span=list(sp))
         # 'exception' events carry no nesting information
